@@ -6,7 +6,8 @@ EXPLANATION = ('Structural termination/progress argument checked on every genera
                'have depth <= 1 (G3), fast loops advance and stop at the byte that ends them (G11), the root never records, returns None at end of input with nothing consumed and has no late-recording '
                'successor (G4), a state records at most once with end in {offset, offset-1} (G10), Skip restarts at the root at the end of the item (G9c). On MIR, for every definition: token_start is '
                'written only by constructors/morph/clone/next/trivia (= token_end), next() resumes at the previous end, and Graph::new builds states only on the false edge of dfa.has_empty() while the '
-               'true edge records EmptyMatch for every leaf of minimum length 0. Per generated program; "all definitions" is covered by the corpus plus template-shape coverage counters.')
+               'true edge records EmptyMatch for every leaf of minimum length 0. Per generated program; "all definitions" is covered by the corpus plus template-shape coverage counters.'
+               ' Since the E5 engine: generated code == printed graph (G19) and graph ~ reference DFA (G20): end-of-input successors record late and have no continuation, no state continues into a dead reference state.')
 
 
 def run(ctx, rep):
